@@ -558,12 +558,12 @@ bool supported(const Case& c)
 }
 
 // Evaluate one case. Returns false for a *new* (not --known) violation.
-bool evaluate(Ctx& ctx, const Case& c, Failure* out = nullptr)
+void classify(const Case& c, bool random);
+
+bool evaluate(Ctx& ctx, const Case& c, bool random, Failure* out = nullptr)
 {
-    if(!supported(c))
-    {
-        return true;
-    }
+    if(!supported(c)) return true; // overload / Byte not available in this standard: not counted
+    classify(c, random);
     ctx.rep.eval();
     g_cur = &c;
     Failure f;
@@ -654,8 +654,7 @@ void exhaustive(Ctx& ctx, unsigned maxN, unsigned maxN_uchar)
     long n = 0;
     auto go = [&](const Case& c)
     {
-        classify(c, false);
-        evaluate(ctx, c);
+        evaluate(ctx, c, false);
         if((++n % 400000) == 200000) ctx.rep.sample(format(c), 2);
     };
     for(unsigned N = 0; N <= maxN; N++)
@@ -898,10 +897,9 @@ void random_part(Ctx& ctx)
               [&]()
               {
                   const Case c = *case_gen();
-                  classify(c, true);
                   if((++n % 20000) == 1) ctx.rep.sample(format(c), 6);
                   Failure f;
-                  if(!evaluate(ctx, c, &f)) RC_FAIL(f.sig + ": " + f.what);
+                  if(!evaluate(ctx, c, true, &f)) RC_FAIL(f.sig + ": " + f.what);
               });
 }
 } // namespace
@@ -927,7 +925,7 @@ int main(int argc, char** argv)
         }
         hc::current_always(format(c));
         Failure f;
-        evaluate(ctx, c, &f);
+        evaluate(ctx, c, false, &f);
         printf("REPLAY %s\n", f.failed() ? (f.sig + ": " + f.what).c_str() : "property holds for this case");
         return ctx.rep.finish();
     }
